@@ -3,5 +3,7 @@
 set -e
 cd "$(dirname "$0")"
 export CARGO_NET_OFFLINE=true
-(cd harness && cargo build 2>&1 | tail -3)
+(cd harness && cargo build --quiet 2>&1 | tail -3)
+./harness/target/debug/sle_harness gen-tables lean/SLE/Gen
 (cd lean && lake build 2>&1 | tail -3)
+echo setup-done
